@@ -199,7 +199,7 @@ func (p C04) Run(c *sim.Ctx, t *sim.Tape) sim.RunResult {
 	}
 	weights := []int{6, 4, 3, 4, 3, 2, 2, 3, 3, 5, 3, 2, 3, 1, 2, 2, 1, 1, 2}
 
-	for q := 0; q < 40 && (q < 10 || t.Chance(930)); q++ {
+	for q, lim := 0, 40*deeper(c, t); q < lim && (q < 10 || t.Chance(930+30*(lim/80))); q++ {
 		o := fsx.Op{K: kinds[t.Weighted(weights)]}
 
 		switch o.K {
